@@ -120,30 +120,31 @@ theorem walk_causes (fuel : Nat) : ∀ (orig data : Bytes) (off : Nat) (seen : L
       | ok attr =>
         rw [walk_step hne hr]
         have hwc : walkCauses (fuel + 1) orig data off seen =
-            match ((if ordBad seen attr.ty then [afterErr seen attr.ty] else []) ++
-              (if attr.paddedLen > data.length then
-                [PErr.truncated (off + attr.paddedLen) (off + data.length)] else []) ++
-              fpCauses orig off attr) with
-            | c :: cs => c :: cs
-            | [] => walkCauses fuel orig (data.drop attr.paddedLen) (off + attr.paddedLen)
-                      (seenNext seen attr.ty) := by
+            if attr.paddedLen > data.length then
+              ((if ordBad seen attr.ty then [afterErr seen attr.ty] else []) ++
+                (if attr.paddedLen > data.length then
+                  [PErr.truncated (off + attr.paddedLen) (off + data.length)] else []) ++
+                fpCauses orig off attr)
+            else
+              ((if ordBad seen attr.ty then [afterErr seen attr.ty] else []) ++
+                (if attr.paddedLen > data.length then
+                  [PErr.truncated (off + attr.paddedLen) (off + data.length)] else []) ++
+                fpCauses orig off attr) ++
+              walkCauses fuel orig (data.drop attr.paddedLen) (off + attr.paddedLen)
+                (seenNext seen attr.ty) := by
           rw [walkCauses]
           simp only [hne', Bool.false_eq_true, if_false, attrCauses_ok hr]
-          split <;> rename_i heq
-          · simp only [Prod.mk.injEq] at heq
-            rw [heq.1]
-          · simp only [Prod.mk.injEq] at heq
-            cases heq.2
-          · simp only [Prod.mk.injEq] at heq
-            obtain ⟨h1, h2⟩ := heq
-            injection h2 with h2; subst h2
-            rw [h1]; rfl
+          rfl
         rw [hwc]
-        by_cases ho : ordBad seen attr.ty = true
-        · simp [ho]
-        · by_cases hs : attr.paddedLen > data.length
-          · simp [ho, hs]
-          · simp only [ho, hs, Bool.false_eq_true, if_false, List.nil_append]
+        by_cases hs : attr.paddedLen > data.length
+        · simp only [hs, if_true]
+          by_cases ho : ordBad seen attr.ty = true
+          · simp [ho]
+          · simp [ho]
+        · simp only [hs, if_false, List.append_nil]
+          by_cases ho : ordBad seen attr.ty = true
+          · simp [ho]
+          · simp only [ho, Bool.false_eq_true, if_false, List.nil_append]
             cases hf : fpCheck orig off attr with
             | error e =>
               rw [fpCheck_error_causes _ _ _ _ hf]
